@@ -473,6 +473,10 @@ where
                         Ok(CoroutineState::Suspend(y, timestamp))
                     }
                     CoroutineState::Syscall(y, syscall, state) => {
+                        // the delay/cancel requests pushed for this yield belong to this yield only,
+                        // never leave them on the thread for the next coroutine
+                        _ = Suspender::<Yield, Param>::is_cancel();
+                        _ = Suspender::<Yield, Param>::timestamp();
                         Ok(CoroutineState::Syscall(y, syscall, state))
                     }
                     _ => Err(Error::other(format!(
